@@ -48,6 +48,13 @@ Fixpoint utf8_decode (bs : list N) : option str :=
       else None
   end.
 
+(* FileStream(file, encoding="utf-8-sig"): one leading byte-order mark is dropped *)
+Definition decode_source (bs : list N) : option str :=
+  match bs with
+  | 239%N :: 187%N :: 191%N :: r => utf8_decode r
+  | _ => utf8_decode bs
+  end.
+
 Definition utf8_encode_char (c : char) : list N :=
   if (c <? 128)%N then [c]
   else if (c <? 2048)%N then [192 + c / 64; 128 + c mod 64]%N
@@ -105,7 +112,7 @@ Section Pipeline.
 
   (* Documenter(file, title, module_name, settings).process().to_text() *)
   Definition document_bytes (title module_name : str) (bytes : list N) : outcome :=
-    match utf8_decode bytes with
+    match decode_source bytes with
     | None => ODecodeErr
     | Some src => document_str title module_name src
     end.
